@@ -7,6 +7,6 @@ require (
 	pgregory.net/rapid v1.3.0
 )
 
-require github.com/PelicanPlatform/classad v0.4.0 // indirect
+require github.com/PelicanPlatform/classad v0.4.0
 
 replace github.com/bbockelm/cedar => /repo
